@@ -109,7 +109,7 @@ pub struct Rule {
 
 impl Hash for Rule {
     fn hash<H: Hasher>(&self, state: &mut H) {
-        self.id.hash(state);
+        // only fields that `eq` compares: equal rules must hash alike (the id is not part of equality)
         self.resource.hash(state);
         self.ref_resource.hash(state);
     }
